@@ -95,6 +95,14 @@ CHECKS = {
         "DIMSE provider, C-STORE sub-operations and the C-MOVE sub-association are scripted doubles around the real service-class code.",
         "3/C20",
     ),
+    "C21": (
+        "exploration",
+        "enum",
+        "exhaustive enumeration of handler result shapes and of every status of each service's table through the real SCP implementations against the documented mapping",
+        "For C-FIND/C-GET/C-MOVE every status of the service's table (as int and as status dataset with optional elements), eight malformed or raising shapes, and a dataset pool under four transfer syntaxes; for C-ECHO, C-STORE and the six DIMSE-N services 11 status shapes x 4 dataset shapes + 5 special shapes: the response status must be the supplied one (status elements copied) or the documented failure code (0xC001, 0xC002, 0xC211, 0xC311/0xC411/0xC511, 0xC312, 0x0110, C-ECHO 0x0000) and response datasets must decode equal to the handler's under the negotiated transfer syntax.",
+        "Recording DIMSE double runs the real primitive-to-message conversion and fragmentation; data-set equality uses pydicom's codec.",
+        "3/C21",
+    ),
     "C22": (
         "exploration",
         "enum",
